@@ -10,7 +10,7 @@
    hypotheses seek_hyps hold (intact run from the landing point reaching the
    target, full rate; Seek_lemmas.v).  Exact landing for every target of small
    chained files, time seeks and end-of-file behaviour are established per run. *)
-From VV Require Import Blocking VFile VFile_lemmas Term_lemmas VFileDemo Sync_lemmas Seek_lemmas.
+From VV Require Import Blocking VFile VFile_lemmas Term_lemmas VFileDemo Sync_lemmas Seek_lemmas SeekE_lemmas.
 From Coq Require Import ZArith List Lia.
 Import ListNotations.
 Local Open Scope Z_scope.
@@ -76,4 +76,17 @@ Print Assumptions C08_sample_seek_lands_exactly_on_target.
 (* non-vacuity: every target of the demo link up to the last page *)
 Example C08_exact_landing_nonvacuous :
   forallb (fun k => seek_hyps demo2 (Z.of_nat k) && (v_pcm (snd (pcm_seek demo2 (Z.of_nat k))) =? Z.of_nat k)) (seq 0 673) = true.
+Proof. vm_compute. reflexivity. Qed.
+
+(* ... and up to the very end of the link: targets inside the block that the end-of-stream packet cuts
+   short, the link's last sample and its end included (SeekE_lemmas.v) *)
+Theorem C08_sample_seek_lands_exactly_up_to_link_end :
+  forall s pos, seek_hyps_e s pos = true ->
+    fst (pcm_seek s pos) = 0 /\ v_pcm (snd (pcm_seek s pos)) = pos.
+Proof. intros s pos H. destruct (pcm_seek_checked_e s pos H) as (A & B & _). split; assumption. Qed.
+Print Assumptions C08_sample_seek_lands_exactly_up_to_link_end.
+
+(* non-vacuity: the targets of the demo link's last page, its end (700) included *)
+Example C08_exact_landing_to_end_nonvacuous :
+  forallb (fun k => seek_hyps_e demo2 (Z.of_nat k) && (v_pcm (snd (pcm_seek demo2 (Z.of_nat k))) =? Z.of_nat k)) (seq 673 28) = true.
 Proof. vm_compute. reflexivity. Qed.
